@@ -331,6 +331,39 @@ func main() {
 			f := map[float64]bool{2.5: true, -1: true}
 			*out = append(*out, strings.Join(order, ""), fmt.Sprint(len(vmc.SortedKeys(f))))
 		}, want: []string{"321,2"}},
+		{name: "context.AfterFunc: stop ends the helper, cancel runs the function", body: func(out *[]string) {
+			c, cancel := vctx.WithCancel(vctx.Background())
+			stop := vctx.AfterFunc(c, func() { *out = append(*out, "ran") })
+			*out = append(*out, fmt.Sprint(stop()))
+			cancel()
+			c2, cancel2 := vctx.WithCancel(vctx.Background())
+			done := vmc.NewChan[struct{}](0)
+			vctx.AfterFunc(c2, func() { *out = append(*out, "ran2"); done.Send(struct{}{}) })
+			cancel2()
+			done.Recv()
+		}, want: []string{"true,ran2"}},
+		{name: "rwmutex: two readers at once, writer excluded", body: func(out *[]string) {
+			var rw vsync.RWMutex
+			both := vmc.NewChan[struct{}](0)
+			var wg vsync.WaitGroup
+			x := 0
+			for i := 0; i < 2; i++ {
+				wg.Add(1)
+				vmc.Go(func() {
+					rw.RLock()
+					both.Send(struct{}{}) // both readers hold the lock while the main thread collects
+					rw.RUnlock()
+					wg.Done()
+				})
+			}
+			both.Recv()
+			both.Recv()
+			wg.Wait()
+			rw.Lock()
+			x++
+			rw.Unlock()
+			*out = append(*out, fmt.Sprint(x))
+		}, want: []string{"1"}},
 		{name: "AfterFunc and Once", body: func(out *[]string) {
 			var once vsync.Once
 			done := vmc.NewChan[struct{}](0)
